@@ -16,6 +16,8 @@ def main():
     props = [json.loads(l)["id"] for l in open(os.path.join(ROOT, "properties.jsonl"))]
     entries, engines = [], []
     for m in checks.modules():
+        if m.__name__ not in base["enabled_modules"]:
+            continue
         entries += getattr(m, "MANIFEST", [])
         engines += getattr(m, "ENGINES", [])
     entries.sort(key=lambda e: e["property_id"])
